@@ -34,3 +34,36 @@ class Unmodelled(SimSignal):
     cls = "harness"
 
 
+
+
+class StdStreamProxy:
+    """What `sys.stdout` is while the zygote imports the repository's package.  Anything in the package that binds the
+    standard output at import time (a logging handler, a default argument, `_out = sys.stdout`) gets this object; in a run
+    fork it forwards to whatever stands for the process's *real* standard output there - the simulated reply pipe of a
+    daemon run - exactly as such a binding would in a real process, where the package is imported before mod_daemon
+    swaps sys.stdout for sys.stderr."""
+
+    def __init__(self):
+        self.target = None
+
+    def _t(self):
+        import sys
+        return self.target if self.target is not None else sys.__stderr__
+
+    def write(self, s):
+        return self._t().write(s)
+
+    def writelines(self, lines):
+        for ln in lines:
+            self.write(ln)
+
+    def flush(self):
+        t = self._t()
+        if hasattr(t, "flush"):
+            t.flush()
+
+    def __getattr__(self, name):
+        return getattr(self._t(), name)
+
+
+STDOUT_PROXY = StdStreamProxy()
